@@ -36,6 +36,9 @@ def _product(a: str, b: str):
 def run(ctx):
     repo = ctx.repo
     _pow_carries_phase(ctx, repo)
+    from . import shared as _shared
+    _shared.empty_decomposition_rule(ctx, 'C14.o')
+    ctx.decided.append('C14.o a decomposition path that hands back no operation has consulted a phase-carrying field (an identity claim is not made blindly)')
     ctx.decided += [
         'C14.a Pauli.third / relative_index / phased_pauli_product, MutablePauliString._imul_atom_helper and the dense per-term phase '
         'function equal the Pauli group multiplication table (exhaustive over the finite domain)',
